@@ -218,6 +218,8 @@ def _cast_cell(x, kind):
                 return SymInt(z3.If(x.z, z3.IntVal(1), z3.IntVal(0)))
         if kind == 'b' and sk in 'if':
             return SymBool(x.z != 0)
+        if kind == 'b' and sk == 'U':
+            return True      # str labels / values are non-empty strings
         if kind == 'U' and sk in 'if':
             return _strof(x)
         if sk == 'U':
@@ -254,8 +256,6 @@ def _cast_cell(x, kind):
                 raise ValueError("invalid literal for int() with base 10: %r" % (x,))
         raise TypeError("int() argument must be a string, a bytes-like object or a real number, not %r" % type(x).__name__)
     if kind == 'b':
-        if isinstance(x, str):
-            raise ModelGap("str -> bool cast")
         return bool(x)
     if kind == 'U':
         if isinstance(x, str):
